@@ -1,3 +1,3 @@
 """Per-property modules: descriptor generation + profile (run/judge/stats)."""
 
-from . import c05, c07, c08, c10, c11, c12, c13, c14, c16, c17, c18, c19  # noqa: F401
+from . import c05, c07, c08, c10, c11, c12, c13, c14, c15, c16, c17, c18, c19  # noqa: F401
